@@ -564,7 +564,6 @@ func cpTypeOf(w *World) types.Type {
 	return nil
 }
 
-
 // textLeaves: the parameters (and other leaves) whose text can end up in the string/bytes value v as it stands at
 // instruction `at`: conversions, slicing, concatenation, phis, calls (arguments), and — for the text of a
 // strings.Builder / bytes.Buffer local — everything written into that builder by calls that can precede `at`.
